@@ -56,7 +56,11 @@ CUSTOM_POOL = [None, {}, {':--x': 'a'}, {':--x': 'b'}, {':--x': 'a', ':--y': 'b'
 PATTERNS = ['p', 'p ', 'P', 'a > b', 'a>b', ':is(a, b)', ':is(b, a)', 'svg|circle', '*|circle', 'a:--x', 'a:--y', ':--y',
             ':nth-child(2n+1)', ':nth-child(odd)', '[type="a"]', "[type='a']", '[type=a i]', ':lang(en)', ':lang("en")',
             ':-soup-contains("x")', 'li:has(> a)', 'div.alpha.beta.gamma.delta.epsilon > p.note.warning', '.k.m.K#i1#i2',
-            '.beta.alpha.gamma.delta.epsilon', 'p.a\x00', 'p.a\ufffd', '\x00', '\ufffd']
+            '.beta.alpha.gamma.delta.epsilon',
+            # unequal structures whose hashes collide (hash(-1) == hash(-2) in CPython): anything keyed by hash alone confuses them
+            ':nth-child(2n-1)', ':nth-child(2n-2)', ':nth-child(-n+3)', ':nth-child(-2n+3)', 'p.a\x00', 'p.a\ufffd', '\x00', '\ufffd']
+HASH_TWINS = {':nth-child(2n-1)': ':nth-child(2n-2)', ':nth-child(2n-2)': ':nth-child(2n-1)',
+              ':nth-child(-n+3)': ':nth-child(-2n+3)', ':nth-child(-2n+3)': ':nth-child(-n+3)'}
 FGCFG = FG.Cfg(ns_forms=True, prefixes=('svg', 'x'), custom=('--x',), max_depth=2)
 _doc = [None]
 
@@ -330,7 +334,7 @@ def perturb_key(ch, key):
             k = k[:4] + [True]
         return k
     if r == 1:
-        k[0] = ch.pick(PATTERNS)
+        k[0] = HASH_TWINS[k[0]] if k[0] in HASH_TWINS and ch.p(0.7) else ch.pick(PATTERNS)
     elif r == 2:
         k[1] = ch.pick(NS_POOL)
     elif r == 3:
